@@ -5,7 +5,16 @@ use std::collections::BTreeMap;
 use std::path::{Path, PathBuf};
 
 pub fn rel(root: &Path, p: &Path) -> String {
-    p.strip_prefix(root).map(|r| r.to_string_lossy().to_string()).unwrap_or_else(|_| p.to_string_lossy().to_string())
+    if let Ok(r) = p.strip_prefix(root) {
+        return r.to_string_lossy().to_string();
+    }
+    // files next to the workspace (external editable installs) are named relative to it as well
+    if let Some(parent) = root.parent() {
+        if let Ok(r) = p.strip_prefix(parent) {
+            return format!("../{}", r.to_string_lossy());
+        }
+    }
+    p.to_string_lossy().to_string()
 }
 
 pub fn def_key(root: &Path, d: &FixtureDefinition) -> String {
